@@ -289,7 +289,59 @@ def r11_4(ctx: Ctx) -> None:
            form=txt(rerun[0].test) if rerun else "")
 
 
+RECORD = "antismash/common/secmet/record.py"
+INPUT_ONLY = {"_sources": "source features come from the input only", "_genes": "gene features come from the input only",
+              "_cds_features": "genes are kept; their antiSMASH annotations are stripped per gene (feature.strip_antismash_annotations)"}
+
+
+def r11_5(ctx: Ctx) -> None:
+    """ reuse starts from the saved record with everything antiSMASH added removed: every feature list of the record that can
+        hold antiSMASH-made features is emptied or filtered by `created_by_antismash` in strip_antismash_annotations -
+        otherwise regenerated results add their features a second time """
+    func = ctx.fn(RECORD, "Record.all_features")
+    lists = [n.attr for n in ast.walk(func) if isinstance(n, ast.Attribute) and isinstance(n.value, ast.Name) and n.value.id == "self"
+             and n.attr.startswith("_")]
+    if len(lists) < 8:
+        raise AnalysisError(f"Record.all_features: expected the chained feature lists, found {lists}")
+    strip = ctx.fn(RECORD, "Record.strip_antismash_annotations")
+    handled = set()
+    for call in calls(strip):
+        name = last_attr(call)
+        if name.startswith("clear_") and isinstance(call.func, ast.Attribute) and txt(call.func.value) == "self":
+            # what the clearing method empties: lists it calls .clear() on or re-binds, itself or through other clear_* methods
+            seen, todo = set(), [name]
+            while todo:
+                cur = todo.pop()
+                if cur in seen:
+                    continue
+                seen.add(cur)
+                try:
+                    target = ctx.fn(RECORD, f"Record.{cur}")
+                except AnalysisError:
+                    continue
+                for node in walk_local(target):
+                    if isinstance(node, ast.Call) and last_attr(node) == "clear" and txt(node.func.value).startswith("self._"):
+                        handled.add(txt(node.func.value)[len("self."):])
+                    if isinstance(node, ast.Assign) and txt(node.targets[0]).startswith("self._") and isinstance(node.value, (ast.List, ast.ListComp)):
+                        handled.add(txt(node.targets[0])[len("self."):])
+                    if isinstance(node, ast.Call) and last_attr(node).startswith("clear_") and txt(node.func.value) == "self":
+                        todo.append(last_attr(node))
+    for node in walk_local(strip):
+        if isinstance(node, ast.Assign) and txt(node.targets[0]).startswith("self._") and "created_by_antismash" in txt(node.value):
+            handled.add(txt(node.targets[0])[len("self."):])
+    for lst in lists:
+        ok = lst in handled or lst in INPUT_ONLY
+        ctx.ob("R11.5", RECORD, strip, "Record.strip_antismash_annotations", f"{lst} stripped", ok,
+               "every feature list that modules add to is emptied, or filtered by `created_by_antismash`, before saved results "
+               "are regenerated and added again",
+               detail="" if ok else "TTA codon markers (misc_features made by antiSMASH) are saved with the record, survive the strip "
+               "and are added a second time by the regenerated TTA results: [3:6) appears twice after --reuse-results",
+               form=INPUT_ONLY.get(lst, "emptied or filtered" if ok else "not touched"))
+
+
 def run(ctx: Ctx) -> None:
+    ctx.rule("R11.5", "strip_antismash_annotations covers every feature list modules add to", floor=8)
+    r11_5(ctx)
     ctx.rule("R11.1", "keys read by from_json are written by to_json", floor=25)
     ctx.rule("R11.2", "schema-version and record guards of module results", floor=8)
     ctx.rule("R11.3", "regeneration reaches from_json; setting mismatches are refused, discarded or warned", floor=6)
